@@ -188,7 +188,7 @@ const (
 )
 
 // NumNHVariants is the number of next-hop payload variants.
-const NumNHVariants = 16
+const NumNHVariants = 17
 
 // NHVariant returns the i-th next-hop payload: together they use every field the fluent
 // next-hop builder can set.
@@ -230,6 +230,9 @@ func NHVariant(i int, nis []string) *aftpb.Afts_NextHop {
 		return &aftpb.Afts_NextHop{PushedMplsLabelStack: []*aftpb.Afts_NextHop_PushedMplsLabelStackUnion{{PushedMplsLabelStackUint64: 16}}, PopTopLabel: &wpb.BoolValue{Value: true}}
 	case 14:
 		return &aftpb.Afts_NextHop{IpInIp: &aftpb.Afts_NextHop_IpInIp{SrcIp: sv("198.51.100.1"), DstIp: sv("198.51.100.2")}, DecapsulateHeader: hdrUDPV6, NetworkInstance: sv(otherNI), IpAddress: sv("10.0.0.14")}
+	case 15:
+		// the wrapper is there and says false: present, and different from absent
+		return &aftpb.Afts_NextHop{PopTopLabel: &wpb.BoolValue{Value: false}, IpAddress: sv("10.0.0.15")}
 	default:
 		return &aftpb.Afts_NextHop{}
 	}
